@@ -16,9 +16,9 @@ GROUPS.append(Group(name="C18/list_output_msp430", unity="C18/u_listfmt.cpp", en
                     functions=[("list_output_msp430_both", "disasm/msp430.cpp", "harness+2 loop-contracts, any range (function text extracted verbatim; backs list_output_msp430 and list_output_msp430x)"), ("disasm_msp430/disasm_msp430x", "disasm/msp430.cpp", "replaced by their contract (even length 2..8), discharged for msp430 by C08/disasm_msp430")],
                     defines=["LISTCPU=430"], loops="C18/listfmt430.loops.json", expected_loops=2, unwind=14, checks=CH, timeout=900))
 # byte-column family: bytes[] capacity 10 / 16 / 14 must hold 3 characters per byte of the longest instruction
-for cpu, maxlen in (("6800", 3), ("6809", 5), ("68hc08", 4)):
+for cpu, maxlen in (("6800", 3), ("6809", 5), ("68hc08", 4), ("z80", 4)):
     GROUPS.append(Group(name="C18/list_output_%s" % cpu, unity="C18/u_listbytes.cpp", entry="h_listbytes",
-                        functions=[("list_output_%s" % cpu, "disasm/%s.cpp" % cpu, "harness+2 loop-contracts, any range (function text extracted verbatim)"), ("disasm_%s" % cpu, "disasm/%s.cpp" % cpu, "replaced by its contract (length 1..%d)%s" % (maxlen, " - ASSUMED, C08/disasm_6809 does not finish" if cpu == "6809" else ", discharged by C08/disasm_%s (thorough tier)" % cpu))],
+                        functions=[("list_output_%s" % cpu, "disasm/%s.cpp" % cpu, "harness+2 loop-contracts, any range (function text extracted verbatim)"), ("disasm_%s" % cpu, "disasm/%s.cpp" % cpu, "replaced by its contract (length 1..%d)%s" % (maxlen, " - ASSUMED, C08/disasm_%s does not finish" % cpu if cpu in ("6809", "z80") else ", discharged by C08/disasm_%s (thorough tier)" % cpu))],
                         defines=["LISTFN=list_output_%s" % cpu, "DISFN=disasm_%s" % cpu, "MAXLEN=%d" % maxlen, "DISHDR=disasm/%s.h" % cpu, "LISTINC=gen/list_output_%s.inc" % cpu],
                         subst={"FN": "list_output_%s" % cpu, "MAXLEN": maxlen}, loops="C18/listbytes.loops.json", expected_loops=2, unwind=14, checks=CH, timeout=900))
 GROUPS += [g for g in _c12.GROUPS if g.name == "C12/assemble"]
